@@ -117,7 +117,46 @@ def aperture_rules(repo, res):
         if not ok:
             res.add(Finding('SIB', m.fullname, 'annulus subtraction', m.loc, f'{cls}.to_mask: `mask -= inner` not found', {}))
         expect_stmt(res, 'SIB', m, nf_text('masks.append(ApertureMask(mask, bbox))'), f'{cls}.to_mask: mask paired with its own bbox')
-    # extents of the three shapes
+    extent_rules(repo, res)
+    # mask helpers
+    AM = 'photutils.aperture.mask.ApertureMask'
+    ti = repo.method(AM, 'to_image')
+    expect_stmt(res, 'SPEC', ti, nf_text('image[slices_large]') + ' = ' + nf_text('self.data[slices_small]'), 'to_image: weights written at the common pixels')
+    cu = repo.method(AM, 'cutout')
+    expect_stmt(res, 'SPEC', cu, nf_text('cutout[slices_small]') + ' = ' + nf_text('data[slices_large]'), 'cutout: data read at the common pixels')
+    SP.returns_match(repo, res, 'SPEC', f'{AM}.get_overlap_slices', ['self.bbox.get_overlap_slices(shape)'], 'the overlap slices of its bounding box')
+
+
+
+def angle_unit_rules(repo, res):
+    """`theta` is stored as an angular Quantity in the caller's unit (ScalarAngleOrValue keeps deg as deg):
+    every bare number taken from it must go through `.to(<unit>)` first."""
+    n = 0
+    for mn in ('photutils.aperture.ellipse', 'photutils.aperture.rectangle', 'photutils.aperture.core', 'photutils.aperture.circle'):
+        repo.get_module(mn)
+        for f in [g for g in repo.functions.values() if g.module.name == mn]:
+            for node in ast.walk(f.node):
+                if not (isinstance(node, ast.Attribute) and node.attr == 'value'):
+                    continue
+                base = node.value
+                names = {x.id for x in ast.walk(base) if isinstance(x, ast.Name)} | \
+                        {x.attr for x in ast.walk(base) if isinstance(x, ast.Attribute)}
+                if not any('theta' in nm for nm in names):
+                    continue
+                n += 1
+                ok = isinstance(base, ast.Call) and isinstance(base.func, ast.Attribute) and base.func.attr in ('to', 'to_value') \
+                    and len(base.args) >= 1
+                res.oblige('UNIT', f'{f.qualname}: `{unparse(node, 60)}` converts the angle to a stated unit before dropping it', ok,
+                           nontrivial=True, sample={'function': f.fullname, 'expr': unparse(node, 80)})
+                if not ok:
+                    res.add(Finding('UNIT', f.fullname, unparse(node, 80), f'{f.module.relpath}:{node.lineno}',
+                                    f'{f.qualname}: `{unparse(node, 80)}` takes the bare number of the angle `theta` without converting it '
+                                    f'to a stated unit: theta is stored in the caller\'s unit (e.g. deg), so the geometry is computed from '
+                                    f'a number in the wrong unit', {}))
+    res.floor('UNIT', 9)
+
+
+def extent_rules(repo, res):
     r = repo.method('photutils.aperture.rectangle.RectangularMaskMixin', '_calc_extents')
     for name, spec in (('x_extent1', 'abs((half_width * cos_theta) - (half_height * sin_theta))'),
                        ('x_extent2', 'abs((half_width * cos_theta) + (half_height * sin_theta))'),
@@ -138,14 +177,6 @@ def aperture_rules(repo, res):
                      ('photutils.aperture.rectangle.RectangularAperture', 'self._calc_extents(self.w, self.h, self.theta)'),
                      ('photutils.aperture.rectangle.RectangularAnnulus', 'self._calc_extents(self.w_out, self.h_out, self.theta)')):
         SP.returns_match(repo, res, 'SPEC', f'{cn}._xy_extents', [spec], 'half-extents of the (outer) shape')
-    # mask helpers
-    AM = 'photutils.aperture.mask.ApertureMask'
-    ti = repo.method(AM, 'to_image')
-    expect_stmt(res, 'SPEC', ti, nf_text('image[slices_large]') + ' = ' + nf_text('self.data[slices_small]'), 'to_image: weights written at the common pixels')
-    cu = repo.method(AM, 'cutout')
-    expect_stmt(res, 'SPEC', cu, nf_text('cutout[slices_small]') + ' = ' + nf_text('data[slices_large]'), 'cutout: data read at the common pixels')
-    SP.returns_match(repo, res, 'SPEC', f'{AM}.get_overlap_slices', ['self.bbox.get_overlap_slices(shape)'], 'the overlap slices of its bounding box')
-
 
 def run(repo, tier):
     res = Result(PROP)
@@ -161,6 +192,7 @@ def run(repo, tier):
     res.assumptions = ['the compiled geometry kernels take (xmin, xmax, ymin, ymax, nx, ny, shape..., use_exact, subpixels)']
     bbox_rules(repo, res)
     aperture_rules(repo, res)
+    angle_unit_rules(repo, res)
     run_L4(repo, res)
     run_axis(repo, res, MODS)
     run_deadstore(repo, res, MODS)
